@@ -77,7 +77,100 @@ type FuncV struct {
 	Builtin *ssa.Builtin
 }
 
+// PtrChoice is a guarded choice between concrete pointers (the guards are mutually exclusive and
+// exhaustive on the paths that hold the value). It only arises from merges when cfg.PtrChoice is on.
+type PtrAlt struct {
+	G *Term
+	P *PtrV
+}
+
+type PtrChoice struct{ Alts []PtrAlt }
+
 var nilPtr = &PtrV{}
+
+func samePtr(a, b *PtrV) bool {
+	if isNilPtr(a) || isNilPtr(b) {
+		return isNilPtr(a) && isNilPtr(b)
+	}
+	if a.Obj != b.Obj || len(a.Path) != len(b.Path) {
+		return false
+	}
+	for i := range a.Path {
+		if a.Path[i].Field != b.Path[i].Field || a.Path[i].Idx != b.Path[i].Idx {
+			return false
+		}
+	}
+	return true
+}
+
+// ptrAlts views any pointer-like value as a list of guarded alternatives.
+func (e *Exec) ptrAlts(v Value) ([]PtrAlt, bool) {
+	switch x := v.(type) {
+	case *PtrV:
+		return []PtrAlt{{e.ctx.True, x}}, true
+	case *PtrChoice:
+		return x.Alts, true
+	}
+	return nil, false
+}
+
+// mkChoice normalises alternatives (same targets joined, false guards dropped).
+func (e *Exec) mkChoice(alts []PtrAlt) Value {
+	var out []PtrAlt
+	for _, a := range alts {
+		if a.G.IsFalse() {
+			continue
+		}
+		done := false
+		for i := range out {
+			if samePtr(out[i].P, a.P) {
+				out[i].G = e.ctx.Or(out[i].G, a.G)
+				done = true
+				break
+			}
+		}
+		if !done {
+			out = append(out, a)
+		}
+	}
+	if len(out) == 1 {
+		return out[0].P
+	}
+	if len(out) == 0 {
+		return nilPtr
+	}
+	return &PtrChoice{Alts: out}
+}
+
+func (e *Exec) mergePtrLike(g *Term, a, b Value) (Value, bool) {
+	aa, ok1 := e.ptrAlts(a)
+	bb, ok2 := e.ptrAlts(b)
+	if !ok1 || !ok2 {
+		return nil, false
+	}
+	if pa, ok := a.(*PtrV); ok {
+		if pb, ok := b.(*PtrV); ok {
+			if r, ok := e.mergePtr(g, pa, pb); ok {
+				return r, true
+			}
+		}
+	}
+	if !e.cfg.PtrChoice {
+		return nil, false
+	}
+	ng := e.ctx.Not(g)
+	var alts []PtrAlt
+	for _, x := range aa {
+		alts = append(alts, PtrAlt{e.ctx.And(g, x.G), x.P})
+	}
+	for _, x := range bb {
+		alts = append(alts, PtrAlt{e.ctx.And(ng, x.G), x.P})
+	}
+	if len(alts) > 96 {
+		return nil, false
+	}
+	return e.mkChoice(alts), true
+}
 
 func isNilPtr(p *PtrV) bool { return p == nil || p.Obj == nil }
 
@@ -316,12 +409,8 @@ func (e *Exec) mergeValue(g *Term, a, b Value, owner int) (Value, bool) {
 			n.E[i] = v
 		}
 		return n, true
-	case *PtrV:
-		y, ok := b.(*PtrV)
-		if !ok {
-			return nil, false
-		}
-		return e.mergePtr(g, x, y)
+	case *PtrV, *PtrChoice:
+		return e.mergePtrLike(g, a, b)
 	case *SliceV:
 		y, ok := b.(*SliceV)
 		if !ok {
